@@ -205,7 +205,7 @@ def errnos_for(op):
     if k == "RENAME":
         return ["EXDEV", "EIO", "EACCES", "ENOSPC"]
     if k in ("WRITE",):
-        return ["EIO", "ENOSPC", "EDQUOT"]
+        return ["EIO", "ENOSPC", "EDQUOT", "EFBIG", "EINVAL", "EPERM"]
     if k == "OPEN_W":
         return ["EACCES", "ENOSPC", "EMFILE", "EROFS", "EIO"]
     if k in ("OPEN_R", "OPENDIR"):
